@@ -6,6 +6,7 @@ export GOFLAGS=-mod=mod GOPROXY=off GOSUMDB=off GOTOOLCHAIN=local
 F="$(readlink -f "$1")"; shift
 REPO="${VERIF_REPO:-/repo}"
 REL="${F#/verif/replay/}"; PKGDIR="$(dirname "$REL")"; BASE="$(basename "$REL")"
+[ "$PKGDIR" = "root" ] && PKGDIR="."
 W="$(mktemp -d /var/tmp/govc-replay.XXXXXX)"; trap 'rm -rf "$W"' EXIT
 grep -v libp2pquic "$REPO/clusterhost.go" > "$W/clusterhost.go"
 grep -v libp2pquic "$REPO/api/rest/restapi.go" > "$W/restapi.go"
